@@ -276,6 +276,12 @@ func valEqualsDest(v reflect.Value, arg Val) bool {
 		}
 		return valEqualsDest(v.Elem(), arg)
 	}
+	if v.Kind() == reflect.Slice && len(arg.L) > 0 || arg.T == "strlist" || arg.T == "intlist" || arg.T == "f64list" || arg.T == "boollist" {
+		if v.Kind() != reflect.Slice {
+			return false
+		}
+		return reflect.DeepEqual(v.Interface(), TypedSlice(v.Type(), arg)) // "membership by deep equality"
+	}
 	a := reflect.ValueOf(arg.Go())
 	if !a.IsValid() {
 		return false
@@ -511,6 +517,9 @@ func DefaultParams(kind string, elemKind string, ts TestSpec) map[string]any {
 		return map[string]any{"match": ts.Str}
 	case "contains":
 		if kind == KSlice {
+			if elemKind == KSlice {
+				return map[string]any{"contained": ts.Arg.Go()}
+			}
 			return map[string]any{"contained": conv(*ts.Arg, elemKind)}
 		}
 		return map[string]any{"contained": ts.Str}
